@@ -11,6 +11,7 @@ pub mod c09;
 pub mod c13;
 pub mod c14;
 pub mod c16;
+pub mod c17;
 pub mod c19;
 pub mod common;
 pub mod c20;
@@ -33,6 +34,7 @@ pub fn run(prop: &str, tier: Tier, replay: Option<Value>) -> ! {
         "C13" => c13::run(tier, replay),
         "C14" => c14::run(tier, replay),
         "C16" => c16::run(tier, replay),
+        "C17" => c17::run(tier, replay),
         "C19" => c19::run(tier, replay),
         "C20" => c20::run(tier, replay),
         _ => crate::engine::report::machinery_fail(&format!("unknown property {prop}")),
@@ -43,6 +45,7 @@ pub fn worker(kind: &str) -> Handler {
     match kind {
         "c01" => c01::worker(),
         "c14" => c14::worker(),
+        "c17" => c17::worker(),
         "c19" => c19::worker(),
         "script" => common::script_worker(),
         _ => crate::engine::report::machinery_fail(&format!("unknown worker kind {kind}")),
